@@ -35,6 +35,12 @@ type Everyone struct {
 	*Admin
 }
 
+// Solo is a union with a single member.
+type Solo struct {
+	schemabuilder.Union
+	*User
+}
+
 // data
 var users = map[int64]*User{1: {1, 10, "ann"}, 2: {2, 10, "bob"}, 3: {3, 20, "cy"}}
 var devices = map[int64]*Device{7: {7, true}, 8: {8, false}}
@@ -63,7 +69,7 @@ func usr(id int64) *User {
 
 // Distributable fields: "Type.field".
 var Fields = []string{"User.secret", "User.score", "User.device", "User.devices", "User.tags", "User.scaled", "Device.temp", "Device.owner",
-	"Query.users", "Query.user1", "Query.nobody", "Query.everyone", "Query.devices", "Query.devicesN", "Query.count", "Query.userById"}
+	"Query.users", "Query.user1", "Query.nobody", "Query.everyone", "Query.solo", "Query.devices", "Query.devicesN", "Query.count", "Query.userById"}
 
 // Rendered: the logical (argument-free) fields the reference sees for the fields with arguments.
 var Rendered = map[string][2]string{
@@ -88,7 +94,7 @@ func has(ss []string, s string) bool {
 // build registers on schema s every field f with serves(f).
 func build(s *schemabuilder.Schema, serves func(f string) bool) {
 	needUser := serves("User.secret") || serves("User.score") || serves("User.device") || serves("User.devices") || serves("User.tags") ||
-		serves("User.scaled") || serves("Query.userById") || serves("Query.users") || serves("Query.user1") || serves("Query.nobody") || serves("Query.everyone") || serves("Device.owner")
+		serves("User.scaled") || serves("Query.userById") || serves("Query.solo") || serves("Query.users") || serves("Query.user1") || serves("Query.nobody") || serves("Query.everyone") || serves("Device.owner")
 	needDevice := serves("Device.temp") || serves("Device.owner") || serves("Query.devices") || serves("Query.devicesN") || serves("User.device") || serves("User.devices")
 	q := s.Query()
 	if serves("Query.count") {
@@ -157,6 +163,9 @@ func build(s *schemabuilder.Schema, serves func(f string) bool) {
 	}
 	if serves("Query.devices") {
 		q.FieldFunc("devices", func(ctx context.Context) []*Device { return []*Device{dev(8), dev(7)} })
+	}
+	if serves("Query.solo") {
+		q.FieldFunc("solo", func(ctx context.Context) *Solo { return &Solo{User: usr(3)} })
 	}
 	if serves("Query.devicesN") {
 		// a list with a nil entry in the middle
@@ -309,8 +318,9 @@ func Describe() zoo.Desc {
 	sc := func() zoo.TypeDesc { return zoo.TypeDesc{Kind: "SCALAR", Fields: map[string]zoo.TRef{}, Members: []string{}} }
 	d.Types["Int"], d.Types["String"], d.Types["Bool"] = sc(), sc(), sc()
 	d.Types["Everyone"] = zoo.TypeDesc{Kind: "UNION", Fields: map[string]zoo.TRef{}, Members: []string{"User", "Admin"}}
+	d.Types["Solo"] = zoo.TypeDesc{Kind: "UNION", Fields: map[string]zoo.TRef{}, Members: []string{"User"}}
 	d.Types["Query"] = zoo.TypeDesc{Kind: "OBJECT", Members: []string{}, Fields: map[string]zoo.TRef{
-		"users": list(named("User")), "user1": named("User"), "nobody": named("User"), "everyone": list(named("Everyone")),
+		"users": list(named("User")), "user1": named("User"), "nobody": named("User"), "everyone": list(named("Everyone")), "solo": named("Solo"),
 		"devices": list(named("Device")), "devicesN": list(named("Device")), "count": named("Int"),
 		"userById1": named("User"), "userById3": named("User"), "userById9": named("User")}}
 	d.Types["User"] = zoo.TypeDesc{Kind: "OBJECT", Key: "id", Members: []string{}, Fields: map[string]zoo.TRef{
@@ -350,7 +360,7 @@ func Describe() zoo.Desc {
 	for _, id := range rootUsers {
 		ru = append(ru, un(id))
 	}
-	d.Objs["q"] = zoo.ObjDesc{Type: "Query", M: map[string]tj.T{"users": refs(ru), "user1": ref("u1"), "nobody": ref(""),
+	d.Objs["q"] = zoo.ObjDesc{Type: "Query", M: map[string]tj.T{"users": refs(ru), "user1": ref("u1"), "nobody": ref(""), "solo": ref("u3"),
 		"everyone": refs(rootEveryone), "devices": refs([]string{"d8", "d7"}), "devicesN": refs([]string{"d7", "", "d8"}), "count": tj.From(3),
 		"userById1": ref("u1"), "userById3": ref("u3"), "userById9": ref("")}}
 	ids := []int64{}
